@@ -240,6 +240,86 @@ fn run_dial(b: usize, rng: &mut StdRng, out: &mut Vec<String>) {
     }
 }
 
+/// Dial by address whose negotiated connection the manager then rejects (outgoing limit taken by a dial that
+/// was established first, or the peer already holds two connections): the dial itself succeeded, so the address
+/// used is re-scored as a success (seeded C10h: re-scored only when the connection is accepted).  The address
+/// has an older, lower score from a failed attempt, so the success is visible.
+fn run_dial_addr_rejected(b: usize, rng: &mut StdRng, out: &mut Vec<String>) {
+    let by_limit = rng.gen_bool(0.5);
+    let mut h = ManagerHarness::new(None, if by_limit { Some(1) } else { None }, 1, listen_addrs());
+    let peer = PeerId::random();
+    let other = PeerId::random();
+    let mut names: HashMap<Multiaddr, String> = HashMap::new();
+    let mut addrs = vec![];
+    for i in 0..rng.gen_range(2..5) {
+        let name = format!("d{i}");
+        let a = addr_for(&format!("{b}-r{name}"), i % 2 == 0).with(Protocol::P2p(peer.into()));
+        names.insert(a.clone(), name);
+        addrs.push(a);
+    }
+    let scores = |h: &ManagerHarness| -> Value {
+        let mut m = Map::new();
+        for (a, s) in h.addresses(&peer) {
+            m.insert(names.get(&a).cloned().unwrap_or_else(|| a.to_string()), json!(s));
+        }
+        Value::Object(m)
+    };
+    out.push(json!({"e": "reset", "b": b, "src": "dial_addr_rejected", "k": 64}).to_string());
+    h.add_known_address(peer, addrs.clone());
+    let target = addrs[rng.gen_range(0..addrs.len())].clone();
+    let dial_cid = |h: &mut ManagerHarness| -> Option<usize> {
+        while h.step().is_some() {}
+        h.take_calls().iter().find_map(|c| if let Call::Dial { cid, .. } = c { Some(*cid) } else { None })
+    };
+    // an older failed attempt on the same address
+    if rng.gen_bool(0.7) && h.dial_address(target.clone()).is_ok() {
+        if let Some(cid) = dial_cid(&mut h) {
+            let pre = scores(&h);
+            h.inject_dial_failure(cid, target.clone(), ErrKind::Timeout);
+            while h.step().is_some() {}
+            let post = scores(&h);
+            out.push(json!({"e": "rescore", "pre": pre, "post": post, "results": [{"a": names[&target], "score": -100}]}).to_string());
+        }
+    }
+    if h.dial_address(target.clone()).is_err() {
+        return;
+    }
+    let Some(cid) = dial_cid(&mut h) else { return };
+    if by_limit {
+        // a second dial passes the limit check while nothing is established yet and is established first
+        let oa: Multiaddr = "/ip4/10.98.0.1/tcp/998".parse::<Multiaddr>().unwrap().with(Protocol::P2p(other.into()));
+        if h.dial_address(oa.clone()).is_err() {
+            return;
+        }
+        let Some(c2) = dial_cid(&mut h) else { return };
+        h.inject_established(other, c2, false, oa);
+        while h.step().is_some() {}
+        h.resolve_accept(c2, true);
+        while h.step().is_some() {}
+    } else {
+        // the peer connects twice from its side first: primary and secondary slots are taken
+        for _ in 0..2 {
+            let c = h.inject_pending_inbound();
+            while h.step().is_some() {}
+            h.inject_established(peer, c, true, addrs[0].clone());
+            while h.step().is_some() {}
+            h.resolve_accept(c, true);
+            while h.step().is_some() {}
+        }
+    }
+    h.take_calls();
+    let pre = scores(&h);
+    h.inject_established(peer, cid, false, target.clone());
+    while h.step().is_some() {}
+    let rejected = h.take_calls().iter().any(|c| matches!(c, Call::Reject { .. }));
+    let post = scores(&h);
+    out.push(json!({"e": "rescore", "pre": pre, "post": post, "rejected": rejected, "results": [{"a": names[&target], "score": 100}]}).to_string());
+    let pre = scores(&h);
+    h.add_known_address(peer, addrs.clone());
+    let post = scores(&h);
+    out.push(json!({"e": "rediscover", "pre": pre, "post": post}).to_string());
+}
+
 /// Dial by peer id over two transports (TCP + WebSocket scripted transports): the failure report of the
 /// transport that is NOT the last one to conclude must re-score its addresses as well, whether the other
 /// transport then opens a connection or fails too.
@@ -369,6 +449,8 @@ fn main() {
     }
     for _ in 0..args.u64("dial", 0) {
         guarded("dial", &mut lines, &mut |lines| run_dial(b, &mut rng, lines));
+        b += 1;
+        guarded("dial_addr_rejected", &mut lines, &mut |lines| run_dial_addr_rejected(b, &mut rng, lines));
         b += 1;
     }
     for _ in 0..args.u64("dial2", 0) {
